@@ -20,6 +20,10 @@ def pivot():
     S.append(EnumSpec("DisFirst", [U("Off", disabled=True), U("A"), U("B")], note="disabled first"))
     S.append(EnumSpec("DisLast", [U("A"), U("B"), U("C"), U("Off", disabled=True)], note="disabled last"))
     S.append(EnumSpec("Snake", [U("A1"), U("HTTPServer"), U("Io2Go"), U("X"), U("AbCd")], note="identifiers whose field name needs snakify (digits, acronyms)"))
+    S.append(EnumSpec("DisAttr", [
+        U("A"), U("H1", disabled=True, message="m", serialize=["h1"]), U("B"), U("H2", disabled=True, message="m2", flags_last=True), U("C"),
+        U("H3", disabled=True, attr_style="trailing"), U("H4", disabled=True, props=[[("k", "v")]], flags_last=True), U("D"),
+    ], note="`disabled` combined with other items in one attribute (before / after key = value items), trailing comma, next to props(..)"))
     S.append(EnumSpec("Eight", [U("V%d" % i) for i in range(8)], note="8 enabled variants"))
     S.append(EnumSpec("Disc", [U("A", disc="5", disc_val=5), U("B"), U("H", disabled=True), U("C", disc="1", disc_val=1)],
                       repr="u8", note="explicit discriminants not in declaration order"))
